@@ -126,7 +126,9 @@ def expected(mentions, syntax, opts):
         if p['multiple'] and vprefix.get(n + '*') and v:
             v = '%s.%s' % (vprefix[n + '*'], v)
             lq, rq = '{', '}'
-        isbool = p['bool'] or n.lower() in BOOL
+        # "listed in output.booleanAttributes": a list given by the caller replaces the default one; HTML attribute names match in any letter case
+        blist = opts.get('output.booleanAttributes')
+        isbool = p['bool'] or n.lower() in (BOOL if blist is None else [x.lower() for x in blist])
         if isbool and not v:
             if opts.get('output.compactBoolean'):
                 out.append([name, None if style == 'html' else 'BARE-OR-EMPTY'])
@@ -201,7 +203,7 @@ def enum_mention(name, kind, i):
 RAW_VALUES = ['x', 'foo-bar', 'a.b', '1', 'a/b', 'x:y', '#f', 'a_b', '(y)', '[z]', 'a>b', 'a+b^c', '!x', 'a,b;c', '@m', '%20', '-', 'ü', 'a*b', '*', '((a))']
 Q_VALUES = ['x y', 'a>b', 'a]b', '[x]', '(y)', 'a}b', 'a=b', '+^*', 'é ü', 'a  b', '{z}', '<b>', ' lead', 'trail ', '.#[', 'a/>b', '*3', '(', ')', 'a.b#c']
 EXPR_VALUES = ['x', 'a > b', 'f(1)', 'a.b', '{a:1}', 'x ? "y" : z', '[1, 2]']
-NAMES = ['k', 'data-a', 'title', 'm:n', 'disabled', 'class', 'id', 'for', 'checked', 'aria-x', 'x.y', '_u']
+NAMES = ['k', 'data-a', 'title', 'm:n', 'disabled', 'class', 'id', 'for', 'checked', 'aria-x', 'x.y', '_u', 'allowFullScreen', 'Open']
 
 
 def rand_mentions(rng, syntax, q):
@@ -269,6 +271,10 @@ def run_shard(desc, ctx):
                 # user tables with any mix of plain and starred keys
                 opts['markup.attributes'] = {k: v for k, v in [('class', 'className'), ('class*', 'styleName'), ('id', 'key'), ('id*', 'keys'), ('for', 'htmlFor'),
                                                                 ('title', 'tt'), ('data-a', 'dataA')] if rng.random() < 0.4}
+            if rng.random() < 0.15:
+                # the caller's own list of boolean attributes, spelled the way the caller's framework spells them
+                opts['output.booleanAttributes'] = [x for x in ['allowFullScreen', 'k', 'Open', 'TITLE', 'data-a', 'checked', 'm:n'] if rng.random() < 0.5]
+                ctx.ev('random:own-boolean-list')
             q = "'" if opts['output.attributeQuotes'] == 'single' else '"'
             mon.check(rand_mentions(rng, syntax, q), syntax, opts, 'random')
     finally:
